@@ -1,5 +1,6 @@
 import PGM.Proofs.OracleSem
 import PGM.Proofs.ExactDisjoint
+import PGM.Proofs.LbpTree
 /-!
 # C16 — approximate marginal oracles are normalised, and exact on acyclic structures
 
@@ -17,13 +18,15 @@ are for the real-number instance (exact arithmetic: no overflow, `log`/`exp` are
 * **exactness** — proved for the acyclic structures in which nothing is shared (pairwise disjoint cliques,
   a forest of isolated nodes): the region graph has no edges and both oracles return `normalise T θ_c`,
   the marginal of the product model, for every sweep count including 0 (`gbp_disjoint`, `lbp_disjoint`,
-  `oracles_agree_disjoint`).  For general junction-tree-structured clique sets / tree factor graphs
-  exactness is **tested per input** against brute-force marginals (`partial`; see DESIGN.md#c16): with
-  damping 1/2 the GBP messages approach their fixed point geometrically, so "exact after enough sweeps"
-  is a limit statement there.
+  `oracles_agree_disjoint`, `disjoint_oracle_exact`), and for **loopy propagation on every tree-structured
+  factor graph** once the sweep count exceeds the height of the forest (`lbp_exact_on_forest`,
+  `lbp_exact_of_elim`: `2·#cliques` sweeps always suffice; chains and stars need 1 or 2).  For generalised
+  propagation on junction-tree-structured clique sets exactness is **tested per input** against brute-force
+  marginals (`partial`; see DESIGN.md#c16): with damping 1/2 the GBP messages approach their fixed point
+  geometrically, so "exact after enough sweeps" is a limit statement there.
 -/
 namespace PGM.C16
-open PGM PGM.JT PGM.Oracle PGM.Sem PGM.ExactDisjoint
+open PGM PGM.JT PGM.Oracle PGM.Sem PGM.ExactDisjoint PGM.LbpTree
 
 /-- **the common last step** `belief += log(total) − logsumexp(belief); exp` produces a valid table
 for every finite belief table and every total > 0 -/
@@ -174,5 +177,73 @@ theorem disjoint_oracle_exact (d : Dom) (cliques : List Clique) (pots : CliqueVe
     ((FG.lbp d cliques pots T i₃ (FG.initMessages d cliques)).1.get c).sem σ
       = T * marginal d (expPots pots) c σ / partition d (expPots pots) :=
   PGM.ExactDisjoint.disjoint_oracle_exact d cliques pots h T hT i₁ i₂ i₃ rho conv hi m₁ m₂ c hc σ hσ
+
+/-! ## loopy propagation is exact on tree-structured factor graphs
+
+`Forest cliques h`: a rank `h` on the directed edges clique → attribute such that every message that enters the
+computation of `cl → v` has smaller rank — exactly acyclicity of the bipartite attribute/clique graph
+(`forest_of_elim`: every leaf-elimination order yields one, with ranks below `2·#cliques`).  After `iters > h`
+sweeps from the initial messages every clique table is `T · Σ_{x∖c} exp(Σ_k θ_k) / Z`. -/
+
+/-- **Loopy belief propagation is exact on forests.**  For every clique `c` the returned table is a
+well-formed table over `dom.project c` whose entry at every cell is
+`T · Σ_{x outside c} exp(Σ_k θ_k) / Σ_x exp(Σ_k θ_k)`. -/
+theorem lbp_exact_on_forest (dom : Dom) (cliques : List Clique) (pots : CliqueVec ℝ) (T : ℝ) (iters : Nat)
+    (h : Clique → Attr → Nat)
+    (hG : GraphOK dom cliques pots) (hpos : PosDom dom) (hF : Forest cliques h)
+    (hiters : ∀ cl ∈ cliques, ∀ v ∈ cl, Shared cliques cl v → h cl v < iters)
+    (hT : 0 < T) (c : Clique) (hc : c ∈ cliques) :
+    let table := (FG.lbp dom cliques pots T iters (FG.initMessages dom cliques)).1.get c
+    table.WF ∧ table.dom = dom.project c ∧
+    ∀ σ, dom.Valid σ → table.sem σ = T * marginalR dom cliques pots c σ / partitionR dom cliques pots :=
+  PGM.LbpTree.lbp_exact_on_forest dom cliques pots T iters h hG hpos hF hiters hT c hc
+
+theorem forest_of_elim (cliques : List Clique) (hnd : cliques.Nodup) (hel : ElimOrder cliques) :
+    ∃ h : Clique → Attr → Nat, Forest cliques h ∧ ∀ cl ∈ cliques, ∀ v, h cl v < 2 * cliques.length :=
+  PGM.LbpTree.forest_of_elim cliques hnd hel
+
+/-- **exactness from an elimination order**, with `2·#cliques` sweeps -/
+theorem lbp_exact_of_elim (dom : Dom) (cliques : List Clique) (pots : CliqueVec ℝ) (T : ℝ) (iters : Nat)
+    (hG : GraphOK dom cliques pots) (hpos : PosDom dom) (hel : ElimOrder cliques)
+    (hiters : 2 * cliques.length ≤ iters) (hT : 0 < T) (c : Clique) (hc : c ∈ cliques) :
+    let table := (FG.lbp dom cliques pots T iters (FG.initMessages dom cliques)).1.get c
+    table.WF ∧ table.dom = dom.project c ∧
+    ∀ σ, dom.Valid σ → table.sem σ = T * marginalR dom cliques pots c σ / partitionR dom cliques pots :=
+  PGM.LbpTree.lbp_exact_of_elim dom cliques pots T iters hG hpos hel hiters hT c hc
+
+/-- **star around an attribute** (in particular the chain of two cliques sharing exactly `v`): any two
+distinct cliques have at most the attribute `v` in common.  One sweep suffices. -/
+theorem lbp_exact_attr_star (dom : Dom) (cliques : List Clique) (pots : CliqueVec ℝ) (T : ℝ) (iters : Nat)
+    (v : Attr) (hG : GraphOK dom cliques pots) (hpos : PosDom dom)
+    (hstar : ∀ cl ∈ cliques, ∀ g ∈ cliques, g ≠ cl → ∀ u, u ∈ cl → u ∈ g → u = v)
+    (hiters : 1 ≤ iters) (hT : 0 < T) (c : Clique) (hc : c ∈ cliques) :
+    let table := (FG.lbp dom cliques pots T iters (FG.initMessages dom cliques)).1.get c
+    table.WF ∧ table.dom = dom.project c ∧
+    ∀ σ, dom.Valid σ → table.sem σ = T * marginalR dom cliques pots c σ / partitionR dom cliques pots :=
+  PGM.LbpTree.lbp_exact_attr_star dom cliques pots T iters v hG hpos hstar hiters hT c hc
+
+/-- **the two-clique chain**: `[c1, c2]` share exactly the attribute `v`.  One sweep suffices (the
+variable-to-factor messages of a sweep are computed from the factor-to-variable messages of the same
+sweep); with `iters = 0` the tables are the normalised potentials, which is wrong in general. -/
+theorem lbp_exact_two_chain (dom : Dom) (c1 c2 : Clique) (pots : CliqueVec ℝ) (T : ℝ) (iters : Nat)
+    (v : Attr) (hG : GraphOK dom [c1, c2] pots) (hpos : PosDom dom)
+    (hshare : ∀ u, u ∈ c1 → u ∈ c2 → u = v)
+    (hiters : 1 ≤ iters) (hT : 0 < T) (c : Clique) (hc : c ∈ [c1, c2]) :
+    let table := (FG.lbp dom [c1, c2] pots T iters (FG.initMessages dom [c1, c2])).1.get c
+    table.WF ∧ table.dom = dom.project c ∧
+    ∀ σ, dom.Valid σ → table.sem σ = T * marginalR dom [c1, c2] pots c σ / partitionR dom [c1, c2] pots :=
+  PGM.LbpTree.lbp_exact_two_chain dom c1 c2 pots T iters v hG hpos hshare hiters hT c hc
+
+/-- **star around a clique**: every clique other than the centre `c0` meets `c0` in at most one
+attribute, and two such cliques only meet inside `c0`.  Two sweeps suffice. -/
+theorem lbp_exact_clique_star (dom : Dom) (cliques : List Clique) (pots : CliqueVec ℝ) (T : ℝ) (iters : Nat)
+    (c0 : Clique) (hG : GraphOK dom cliques pots) (hpos : PosDom dom)
+    (hpend : ∀ p ∈ cliques, p ≠ c0 → ∀ u w, u ∈ p → u ∈ c0 → w ∈ p → w ∈ c0 → u = w)
+    (hpair : ∀ p ∈ cliques, p ≠ c0 → ∀ q ∈ cliques, q ≠ c0 → q ≠ p → ∀ u, u ∈ p → u ∈ q → u ∈ c0)
+    (hiters : 2 ≤ iters) (hT : 0 < T) (c : Clique) (hc : c ∈ cliques) :
+    let table := (FG.lbp dom cliques pots T iters (FG.initMessages dom cliques)).1.get c
+    table.WF ∧ table.dom = dom.project c ∧
+    ∀ σ, dom.Valid σ → table.sem σ = T * marginalR dom cliques pots c σ / partitionR dom cliques pots :=
+  PGM.LbpTree.lbp_exact_clique_star dom cliques pots T iters c0 hG hpos hpend hpair hiters hT c hc
 
 end PGM.C16
